@@ -20,8 +20,15 @@ Sub-driver of M-EXPR.  One request per line:
 namespace SaVerif.Drv.Expr
 open SaVerif.Drv SaVerif.Expr SaVerif.Pratt
 
-/-- the driver evaluates only interpreted symbols -/
-instance : Abs := ⟨fun _ _ => .null, fun _ v => v⟩
+/-- SQLite's `/` on integer values: truncating division, NULL for a zero divisor -/
+def sqliteDiv : Val → Val → Val
+  | .int a, .int b => if b = 0 then .null else .int (Int.tdiv a b)
+  | _, _ => .null
+
+/-- the driver evaluates on rows of integer values the way SQLite does: a CAST to INTEGER /
+    NUMERIC and FLOOR of an integer are the identity, every other function is not interpreted -/
+instance : Abs :=
+  ⟨fun n vs => if n = "FLOOR" then vs.headD .null else .null, fun _ v => v, sqliteDiv⟩
 
 def parseTy? : String → Option Ty
   | "int" => some .int | "num" => some .num | "str" => some .str | "bool" => some .bool
